@@ -65,6 +65,7 @@ def scenarios(ctx):
         steps.append({"op": "remove", "k": k, "v": 1})
         steps += [{"op": "serve", "mut": "none"} for _ in range(2)]
         out.append({"id": "zero-%d" % i, "cfg": {"subject": subject, "table": i}, "steps": steps})
+    out += R.add_family(rng, quick, serve=True)
     return out
 
 
